@@ -28,6 +28,7 @@ import (
 
 	"verif/internal/hx"
 	"verif/internal/keys"
+	"verif/internal/kf"
 	"verif/internal/stats"
 )
 
@@ -173,8 +174,9 @@ func (a nip) netIP(form int) net.IP {
 
 type sub struct {
 	v6   bool
-	bits int
-	base nip // canonical: host bits zero
+	bits int      // prefix length; -1: the mask is not a CIDR prefix
+	m    [16]byte // mask, s.size() bytes
+	base nip      // canonical: bits outside the mask are zero
 }
 
 func maskBytes(size, bits int) []byte {
@@ -185,29 +187,44 @@ func maskBytes(size, bits int) []byte {
 	return m
 }
 
-func mkSub(base nip, bits int) sub {
-	s := sub{v6: base.v6, bits: bits, base: base}
-	m := maskBytes(base.size(), bits)
-	for i := range m {
-		s.base.b[i] &= m[i]
+// prefixLen returns the number of leading one bits, or -1 if a one follows a zero.
+func prefixLen(m []byte) int {
+	ones := 0
+	for ones < len(m)*8 && m[ones/8]&(0x80>>(ones%8)) != 0 {
+		ones++
+	}
+	for i := ones; i < len(m)*8; i++ {
+		if m[i/8]&(0x80>>(i%8)) != 0 {
+			return -1
+		}
+	}
+	return ones
+}
+
+func mkSubMask(base nip, mask []byte) sub {
+	s := sub{v6: base.v6, base: base, bits: prefixLen(mask)}
+	copy(s.m[:], mask)
+	for i := range mask {
+		s.base.b[i] &= mask[i]
 	}
 	return s
 }
 
-func (s sub) size() int { return s.base.size() }
+func mkSub(base nip, bits int) sub { return mkSubMask(base, maskBytes(base.size(), bits)) }
+
+func (s sub) size() int    { return s.base.size() }
+func (s sub) mask() []byte { return append([]byte(nil), s.m[:s.size()]...) }
 
 func (s sub) first() nip { return s.base }
 func (s sub) last() nip {
 	o := s.base
-	m := maskBytes(s.size(), s.bits)
-	for i := range m {
-		o.b[i] |= ^m[i]
+	for i, m := range s.mask() {
+		o.b[i] |= ^m
 	}
 	return o
 }
 
-func prefixEq(a, b []byte, bits int) bool {
-	m := maskBytes(len(a), bits)
+func maskedEq(a, b, m []byte) bool {
 	for i := range m {
 		if a[i]&m[i] != b[i]&m[i] {
 			return false
@@ -231,13 +248,13 @@ func (t tri) String() string { return [...]string{"free", "blocked", "either"}[t
 func (s sub) contains(a nip) tri {
 	switch {
 	case s.v6 == a.v6:
-		if prefixEq(s.base.raw(), a.raw(), s.bits) {
+		if maskedEq(s.base.raw(), a.raw(), s.mask()) {
 			return yes
 		}
 		return no
 	case s.v6 && !a.v6:
 		m := a.mapped16()
-		if prefixEq(s.base.raw(), m[:], s.bits) {
+		if maskedEq(s.base.raw(), m[:], s.mask()) {
 			return either
 		}
 		return no
@@ -245,45 +262,51 @@ func (s sub) contains(a nip) tri {
 	return no
 }
 
-func (s sub) semKey() string { return fmt.Sprintf("%s/%d", s.base, s.bits) }
+func (s sub) suffix() string {
+	if s.bits >= 0 {
+		return fmt.Sprint(s.bits)
+	}
+	return fmt.Sprintf("%x", s.mask())
+}
+
+func (s sub) semKey() string { return s.base.String() + "/" + s.suffix() }
 
 // *net.IPNet encodings of one subnet.
 const (
-	sfCanon    = iota // natural IP length, same-length mask, host bits zero (what ParseCIDR returns)
-	sfHostBits        // natural IP length, host bits set
-	sfIP16Mask4       // v4: 16-byte (mapped) IP, 4-byte mask (net.IPv4(...) + net.CIDRMask(n, 32))
-	sfIP16Mask16      // v4: 16-byte IP, 16-byte mask /96+n (ParseCIDR("::ffff:a.b.c.d/..."))
-	sfIP4Mask16       // v4: 4-byte IP, 16-byte mask /96+n
-	sfIP16Mask4Host   // v4: 16-byte IP with host bits, 4-byte mask
+	sfCanon         = iota // natural IP length, same-length mask, host bits zero (what ParseCIDR returns)
+	sfHostBits             // natural IP length, host bits set
+	sfIP16Mask4            // v4: 16-byte (mapped) IP, 4-byte mask (net.IPv4(...) + net.CIDRMask(n, 32))
+	sfIP16Mask16           // v4: 16-byte IP, 16-byte mask /96+n (ParseCIDR("::ffff:a.b.c.d/..."))
+	sfIP4Mask16            // v4: 4-byte IP, 16-byte mask /96+n
+	sfIP16Mask4Host        // v4: 16-byte IP with host bits, 4-byte mask
 	nSubForms
 )
 
 var subFormNames = [...]string{"canon", "hostbits", "ip16/mask4", "ip16/mask16", "ip4/mask16", "ip16/mask4+hostbits"}
 
 // ipnet builds the IPNet value; noise supplies the host bits for the non-canonical forms.
-// It returns the value and its textual identity (what the given IP+prefix spells).
+// It returns the value and its textual identity (what the given IP+mask spells).
 func (s sub) ipnet(form int, noise [16]byte) (*net.IPNet, string) {
 	given := s.base
-	hostbits := form == sfHostBits || form == sfIP16Mask4Host
-	if hostbits {
-		m := maskBytes(s.size(), s.bits)
-		for i := range m {
-			given.b[i] |= noise[i] &^ m[i]
+	if form == sfHostBits || form == sfIP16Mask4Host {
+		for i, m := range s.mask() {
+			given.b[i] |= noise[i] &^ m
 		}
 	}
-	text := fmt.Sprintf("%s/%d", given, s.bits)
+	text := given.String() + "/" + s.suffix()
 	if s.v6 {
-		return &net.IPNet{IP: net.IP(given.raw()), Mask: net.IPMask(maskBytes(16, s.bits))}, text
+		return &net.IPNet{IP: net.IP(given.raw()), Mask: net.IPMask(s.mask())}, text
 	}
+	wide := append(maskBytes(16, 96)[:12:12], s.mask()...)
 	switch form {
 	case sfIP16Mask4, sfIP16Mask4Host:
-		return &net.IPNet{IP: given.netIP(formMapped16), Mask: net.IPMask(maskBytes(4, s.bits))}, text
+		return &net.IPNet{IP: given.netIP(formMapped16), Mask: net.IPMask(s.mask())}, text
 	case sfIP16Mask16:
-		return &net.IPNet{IP: given.netIP(formMapped16), Mask: net.IPMask(maskBytes(16, 96+s.bits))}, text
+		return &net.IPNet{IP: given.netIP(formMapped16), Mask: net.IPMask(wide)}, text
 	case sfIP4Mask16:
-		return &net.IPNet{IP: net.IP(given.raw()), Mask: net.IPMask(maskBytes(16, 96+s.bits))}, text
+		return &net.IPNet{IP: net.IP(given.raw()), Mask: net.IPMask(wide)}, text
 	}
-	return &net.IPNet{IP: net.IP(given.raw()), Mask: net.IPMask(maskBytes(4, s.bits))}, text
+	return &net.IPNet{IP: net.IP(given.raw()), Mask: net.IPMask(s.mask())}, text
 }
 
 // subOfIPNet reads back an IPNet returned by ListBlockedSubnets.
@@ -295,20 +318,11 @@ func subOfIPNet(n *net.IPNet) (sub, bool) {
 	if !ok {
 		return sub{}, false
 	}
-	ones := 0
-	for ones < len(n.Mask)*8 && n.Mask[ones/8]&(0x80>>(ones%8)) != 0 {
-		ones++
-	}
-	for i := ones; i < len(n.Mask)*8; i++ {
-		if n.Mask[i/8]&(0x80>>(i%8)) != 0 {
-			return sub{}, false
-		}
-	}
 	switch {
 	case len(n.Mask) == a.size():
-		return mkSub(a, ones), true
-	case len(n.Mask) == 16 && !a.v6 && ones >= 96:
-		return mkSub(a, ones-96), true
+		return mkSubMask(a, n.Mask), true
+	case len(n.Mask) == 16 && !a.v6 && prefixLen(n.Mask[:12]) == 96:
+		return mkSubMask(a, n.Mask[12:]), true
 	}
 	return sub{}, false
 }
@@ -322,6 +336,19 @@ type subState struct {
 	lastBlock bool            // last successful call on this address set was a Block (reading 2)
 }
 
+// Known findings of C10 (see witness_test.go).
+const (
+	kfHostBits = "C10-subnet-unblock-other-spelling"
+	kfMask     = "C10-noncidr-mask-breaks-reopen"
+)
+
+// relaxedUsed counts verdicts that were relaxed because of kfHostBits (per process;
+// sampled around each case).
+var relaxedUsed int
+
+// state: is the subnet blocked? A subnet is the set of addresses it covers: the last
+// successful call decides. While finding kfHostBits is listed as known, the one shape it
+// covers (an Unblock spelled differently from a Block still on record) gives no verdict.
 func (st *subState) state() tri {
 	t := len(st.texts) > 0
 	switch {
@@ -330,7 +357,14 @@ func (st *subState) state() tri {
 	case !t && !st.lastBlock:
 		return no
 	}
-	return either
+	if kf.Known(kfHostBits) {
+		relaxedUsed++
+		return either
+	}
+	if st.lastBlock {
+		return yes
+	}
+	return no
 }
 
 type model struct {
@@ -581,6 +615,10 @@ func drawIP(rt *rapid.T, v6 bool, label string) nip {
 	return ip4(b[0], b[1], b[2], b[3])
 }
 
+// excludedMasks counts non-CIDR masks the generator did not produce because finding
+// kfMask is listed as known.
+var excludedMasks int
+
 func drawSub(rt *rapid.T, prev []sub) sub {
 	if len(prev) > 0 && rapid.IntRange(0, 2).Draw(rt, "derive") == 0 {
 		// overlapping: a subnet inside / around an earlier one
@@ -598,6 +636,15 @@ func drawSub(rt *rapid.T, prev []sub) sub {
 	}
 	v6 := rapid.IntRange(0, 2).Draw(rt, "v6") == 0
 	a := drawIP(rt, v6, "subbase")
+	if rapid.IntRange(0, 24).Draw(rt, "noncidr") == 0 {
+		// a mask that is not a prefix (net.IPNet allows it, Contains honours it)
+		if kf.Known(kfMask) {
+			excludedMasks++
+		} else {
+			m := drawBytes(rt, a.size(), "mask")
+			return mkSubMask(a, m[:a.size()])
+		}
+	}
 	if a.v6 {
 		return mkSub(a, rapid.SampledFrom(v6Bits).Draw(rt, "bits"))
 	}
